@@ -448,6 +448,38 @@ theorem C09_cache_transparent_paths (g : Gen) (fuel : Nat) (root : Node) (paths 
     pathRun g fuel root [] paths = paths.map (subkeyForPath g fuel root) :=
   pathRun_eq paths [] (fun _ _ h => by cases h)
 
+/-! ## the shipped generator, instantiated -/
+
+section shipped
+open Pycoin.Curve Pycoin.Gen.Curves Pycoin.Addr
+
+/-- **the shipped generator, instantiated.** Every generator object `Generator.__init__` can build over secp256k1 (any
+blinding factor): commutation of public and private derivation … -/
+theorem C09_ckd_commute_secp256k1 (bf : Int) (tbl : List Pt) (m : Pt)
+    (hg : Gen.new secp256k1 bf = .ok ⟨secp256k1, bf, tbl, m⟩)
+    (n child : Node) (i : Int) (fuel fuel' : Nat) (asPrivate : Bool)
+    (hv : n.Valid ⟨secp256k1, bf, tbl, m⟩) (se : Int) (hse : n.secretExponent = some se)
+    (hfirst : ∃ x, Spec.BIP32.CKDpriv (mathCrypto secp256k1) ⟨se.toNat, n.chainCode⟩ i.toNat = .ok x)
+    (hchild : subkeyRaw ⟨secp256k1, bf, tbl, m⟩ (fuel + 1) n i false true = .ok child) :
+    subkeyRaw ⟨secp256k1, bf, tbl, m⟩ fuel' { n with secretExponent := none } i false asPrivate =
+      .ok { child with secretExponent := none } :=
+  (C09_ckd_commute (g := ⟨secp256k1, bf, tbl, m⟩) (setting_secp256k1 bf tbl m hg) n child i fuel fuel' asPrivate hv se hse
+    hfirst hchild).2.2
+
+/-- … and the text round trip on every network of the table, for every prefix kind it defines -/
+theorem C09_hwif_rt_secp256k1 (bf : Int) (tbl : List Pt) (m : Pt)
+    (hg : Gen.new secp256k1 bf = .ok ⟨secp256k1, bf, tbl, m⟩)
+    (net : Network) (hmem : net ∈ Pycoin.Gen.Networks.all) (hnet : net.b58DoubleSha = true)
+    (n : Node) (se : Int) (hv : n.Valid ⟨secp256k1, bf, tbl, m⟩) (hse : n.secretExponent = some se)
+    (hd : n.depth ≤ 255) (hi : n.childIndex < 2 ^ 32) {a : Bytes} (ha : parsePrefix net n.kind true = some a) :
+    (∃ text, hwif net n true = some (.ok text) ∧ parseBip ⟨secp256k1, bf, tbl, m⟩ net n.kind text = .ok (some n)) ∧
+    (∃ text, hwif net n false = some (.ok text) ∧
+      parseBip ⟨secp256k1, bf, tbl, m⟩ net n.kind text = .ok (some { n with secretExponent := none })) :=
+  C09_hwif_rt (g := ⟨secp256k1, bf, tbl, m⟩) (setting_secp256k1 bf tbl m hg) C09_secp256k1_side_conditions.1
+    C09_secp256k1_side_conditions.2.1 C09_secp256k1_side_conditions.2.2 net hmem hnet n se hv hse hd hi ha
+
+end shipped
+
 /-! ## non-vacuity: the hypotheses of the implications above hold on concrete inputs
 
 `#guard`s are evaluations (tests), not theorems.  BIP32 test vector 1 (seed `000102…0f`) over the shipped curve, blinding
